@@ -6,6 +6,7 @@ import (
 
 	"github.com/gofiber/fiber/v3"
 	"github.com/gofiber/fiber/v3/internal/memory"
+	"github.com/gofiber/utils/v2"
 )
 
 // msgp -file="manager.go" -o="manager_msgp.go" -tests=false -unexported
@@ -81,6 +82,9 @@ func (m *manager) get(key string) *item {
 
 // set data to storage or memory
 func (m *manager) set(key string, it *item, exp time.Duration) {
+	// the key may alias request memory (c.Get, c.IP ...) that is reused by the next request,
+	// while the stores keep it beyond this one
+	key = utils.CopyString(key)
 	if m.storage != nil {
 		if raw, err := it.MarshalMsg(nil); err == nil {
 			_ = m.storage.Set(key, raw, exp) //nolint:errcheck // TODO: Handle error here
